@@ -150,14 +150,8 @@ fn robustness_script(t: &mut Tape) -> Script {
     }
     // arbitrary service URL strings
     if t.chance(1, 5) {
-        s.service_url = match t.choose(6) {
-            0 => String::new(),
-            1 => "not a url".into(),
-            2 => "http://".into(),
-            3 => "http://h/\u{e9}".into(),
-            4 => format!("http://h/{}", "a".repeat(70000)),
-            _ => t.text(12),
-        };
+        s.service_url = gen_junk_url(t);
+        s.junk_service_url = true;
     }
     // stored values of any type and magnitude
     for key in STORED_KEYS {
